@@ -71,7 +71,10 @@ const (
 	// with the histogram bucket bound values.
 	DefaultHistogramBucketTagPrecision = uint(6)
 
-	_emitMetricBatchOverhead    = 19
+	// _emitMetricBatchOverhead is what the header of the metrics list can
+	// grow by once the batch holds metrics (the rest of the message envelope
+	// is measured when the reporter is created).
+	_emitMetricBatchOverhead    = 4
 	_minMetricBucketIDTagLength = 4
 	_timeResolution             = 100 * time.Millisecond
 )
@@ -243,7 +246,18 @@ func NewReporter(opts Options) (Reporter, error) {
 		proto = resourcePool.getProto()
 	)
 
-	if err := batch.Write(proto); err != nil {
+	// n.b. Measure the whole message an empty batch is emitted as: the
+	//      message header (with the longest sequence id), the argument
+	//      struct and the batch with its common tags.
+	err = proto.WriteMessageBegin("emitMetricBatchV2", thrift.ONEWAY, math.MaxInt32)
+	if err == nil {
+		args := m3thrift.M3EmitMetricBatchV2Args{Batch: batch}
+		err = args.Write(proto)
+	}
+	if err == nil {
+		err = proto.WriteMessageEnd()
+	}
+	if err != nil {
 		return nil, errors.WithMessage(
 			err,
 			"failed to write to proto for size calculation",
@@ -405,11 +419,9 @@ func (r *reporter) AllocateHistogram(
 				durationUpperBound: pair.UpperBoundDuration(),
 				metric:             &counter,
 			}
-			delta = len(r.bucketIDTagName) + len(r.bucketTagName) + len(hbucket.bucketID)
 		)
 
 		hbucket.metric.metric.Tags = mtags
-		hbucket.metric.size = r.calculateSize(hbucket.metric.metric)
 
 		if isDuration {
 			bname := r.stringInterner.Intern(
@@ -417,7 +429,7 @@ func (r *reporter) AllocateHistogram(
 					r.durationBucketString(pair.UpperBoundDuration()),
 			)
 			hbucket.bucket = bname
-			hbucket.metric.size += int32(delta + len(bname))
+			hbucket.metric.size = r.calculateBucketSize(hbucket)
 			cachedDurationBuckets = append(cachedDurationBuckets, hbucket)
 		} else {
 			bname := r.stringInterner.Intern(
@@ -425,7 +437,7 @@ func (r *reporter) AllocateHistogram(
 					r.valueBucketString(pair.UpperBoundValue()),
 			)
 			hbucket.bucket = bname
-			hbucket.metric.size += int32(delta + len(bname))
+			hbucket.metric.size = r.calculateBucketSize(hbucket)
 			cachedValueBuckets = append(cachedValueBuckets, hbucket)
 		}
 
@@ -492,6 +504,20 @@ func (r *reporter) newMetric(
 
 	m.Tags = r.convertTags(tags)
 	return m
+}
+
+// calculateBucketSize measures a histogram bucket metric the way it is
+// emitted: with the bucket id and bucket range tags attached.
+func (r *reporter) calculateBucketSize(b cachedHistogramBucket) int32 {
+	m := b.metric.metric
+	tags := make([]m3thrift.MetricTag, 0, len(m.Tags)+2)
+	tags = append(tags, m.Tags...)
+	m.Tags = append(
+		tags,
+		m3thrift.MetricTag{Name: r.bucketIDTagName, Value: b.bucketID},
+		m3thrift.MetricTag{Name: r.bucketTagName, Value: b.bucket},
+	)
+	return r.calculateSize(m)
 }
 
 func (r *reporter) calculateSize(m m3thrift.Metric) int32 {
